@@ -11,6 +11,14 @@ import FitProps.C04
 import FitProofs.IntegFrame
 /-!
   C05 — Encode emits a well-formed, self-describing FIT stream.
+
+  Layers: the frame (`encode_frame`, `encode_residue_zero`, `header_declares_data_size`: header with the
+  data size of the records that follow, header CRC, file CRC; the values written back into the File);
+  the records (`encode_one_self_describing`, `encode_group_self_describing`: a definition followed by data
+  records of exactly the declared sizes, `encoder_sizes_multiple`, `encoder_definitions_validate`);
+  the whole output (`encode_wellformed`); and what the decoder's entry points make of it
+  (`decode_accepts_encode` on C06's domain, `encode_passes_integrity_any` for every File with a
+  legal header).
 -/
 namespace Fit.Props.C05
 open Fit Fit.Crc
